@@ -16,7 +16,7 @@ import (
 func c10Opts(r *mon.RNG, i int) *gram.GenOpts {
 	prof := []int{gram.ProfStateful, gram.ProfStateful, gram.ProfLower, gram.ProfDefault, gram.ProfScanCfg}[i%5]
 	o := &gram.GenOpts{Profile: prof, MaxProds: 4, Budget: 12 + r.Intn(12) + (i/90)*6, Depth: 2 + r.Intn(3) + i/150, TokKinds: i%3 == 0, Unions: true,
-		SharePrefix: 7, CaptureBias: 5, SubBias: 3, AllowBang: true}
+		SharePrefix: 7, CaptureBias: 5, SubBias: 3, AllowBang: true, EOFRefs: true}
 	if i%5 == 4 {
 		// second half of the property: the grammar names the elided type explicitly
 		o.Profile = gram.ProfStateful
@@ -164,16 +164,21 @@ func c10Child(c *mon.Child) {
 				for s, text := range texts {
 					c.Eval(1)
 					rr := realParse(func() (interface{}, error) { return gp.byK[k].ParseString("", text) })
-					if rr.Panicked {
-						c.Feature("parse_panicked_(see_C06)")
-						continue
-					}
 					if s == 0 {
 						first = rr
+						if rr.Panicked {
+							c.Feature("parse_panicked_(see_C06)")
+						}
 						continue
 					}
 					what := ""
-					if (rr.Err == nil) != (first.Err == nil) {
+					if rr.Panicked != first.Panicked {
+						// one spacing of the same token sequence panics, another does not
+						pv := rr.PanicVal + first.PanicVal
+						what = fmt.Sprintf("spacing #0 panicked=%v but spacing #%d panicked=%v (%s)", first.Panicked, s, rr.Panicked, trunc(pv, 200))
+					} else if rr.Panicked {
+						continue
+					} else if (rr.Err == nil) != (first.Err == nil) {
 						what = fmt.Sprintf("accepted=%v with spacing #0 but accepted=%v with spacing #%d", first.Err == nil, rr.Err == nil, s)
 					} else if rr.Err == nil && rr.AST.CanonModuloElided(el) != first.AST.CanonModuloElided(el) {
 						what = fmt.Sprintf("captured fields differ between spacing #0 and #%d: %s vs %s", s, trunc(first.AST.CanonModuloElided(el), 300), trunc(rr.AST.CanonModuloElided(el), 300))
